@@ -271,7 +271,7 @@ func init() {
 	})
 
 	register(&Rule{
-		ID: "C04.R4", Props: []string{"C04", "C08", "C17"}, Min: 5,
+		ID: "C04.R4", Props: []string{"C04", "C08", "C17", "C05"}, Min: 5,
 		Doc: "lookup and the merged environment agree on precedence: Lookup scans scopes from the innermost (index len-1 downwards) and consults the root struct only after the loop; Set writes the innermost scope; EnvMap merges scopes in ascending order with overwrite and applies the root-struct overlay before the scope loop (or non-overwriting), so explicit bindings win everywhere",
 		Run: func(p *Prog, c *Ctx) {
 			env := p.MustFn("(*vuego.Stack).EnvMap")
